@@ -316,6 +316,41 @@ class RevisionMap:
         if deleted_revs:
             raise DependencyCycleDetected(sorted(deleted_revs))
 
+        # being reachable from the heads and from the bases does not rule
+        # out a cycle that is attached to an acyclic part of the graph,
+        # e.g. a <- (), b <- c, c <- d, d <- (a, c).
+        cycle_revs = self._revisions_in_cycles(
+            rev_map, lambda r: r._versioned_down_revisions
+        )
+        if cycle_revs:
+            raise CycleDetected(sorted(cycle_revs))
+        cycle_revs = self._revisions_in_cycles(
+            rev_map, lambda r: r._all_down_revisions
+        )
+        if cycle_revs:
+            raise DependencyCycleDetected(sorted(cycle_revs))
+
+    def _revisions_in_cycles(
+        self,
+        rev_map: _InterimRevisionMapType,
+        fn: Callable[[Revision], Iterable[str]],
+    ) -> Set[str]:
+        """Return the revisions that remain after repeatedly removing every
+        revision none of whose down revisions remain; the result is empty
+        exactly when the graph is acyclic."""
+
+        remaining = set(rev_map.keys())
+        while remaining:
+            removable = {
+                rev_id
+                for rev_id in remaining
+                if not remaining.intersection(fn(rev_map[rev_id]))
+            }
+            if not removable:
+                break
+            remaining.difference_update(removable)
+        return remaining
+
     def _map_branch_labels(
         self, revisions: Collection[Revision], map_: _RevisionMapType
     ) -> None:
